@@ -88,26 +88,38 @@ Proof. exact duplicate_label_rejected. Qed.
 Theorem C14_not_ready_runs_nothing : forall w, pw_ready w <> COk -> started_steps w = [].
 Proof. exact not_ready_runs_nothing. Qed.
 
-(* prepare_workflow returns for every Workflow whose expressions come from the CEL grammar,
-   except for one exception class ... *)
-Theorem C14_prepare_raises_only_type_error : forall steps e,
-  Forall (fun st => trees_wf (step_trees st)) steps ->
-  prepare_workflow steps = Raised e -> e = ETypeError.
-Proof. exact prepare_workflow_raises_only. Qed.
+(* prepare_workflow returns for every Workflow whose expressions come from the CEL grammar
+   (it never raises; errors live in steps_ready) - since repair 2f140bc; before it a key that
+   matches STEPS_NAME_PATTERN without a name raised TypeError out of the order check *)
+Theorem C14_prepare_workflow_total : forall steps,
+  Forall (fun st => trees_wf (step_trees st)) steps -> exists w, prepare_workflow steps = Done w.
+Proof. exact prepare_workflow_total. Qed.
 
-(* ... which does occur on the unchanged code (GENUINE DEFECT, see notes/C14.md): a key that
-   matches STEPS_NAME_PATTERN without a name (`stepsX.foo`, `steps['.a']`, `steps['[a']`)
-   puts None into needed_steps and the ', '.join of the error message raises TypeError out
-   of prepare_workflow - the unknown label is neither reported nor is a Workflow returned *)
-Theorem C14_prepare_total_refuted :
-  exists steps, Forall (fun st => Forall (fun t => cel_expr_wf t = true) (step_trees st)) steps /\
-                prepare_workflow steps = Raised ETypeError.
-Proof. exact prepare_workflow_total_refuted. Qed.
+(* the sentence in one statement: prepare returns, the Workflow is not ready, nothing is started *)
+Theorem C14_bad_order_reported : forall steps pre st post t name,
+  Forall (fun st => trees_wf (step_trees st)) steps -> steps = pre ++ st :: post ->
+  In t (step_trees st) -> name_ok name = true -> occurs_steps_ref name t ->
+  ~ In name (map st_label pre) ->
+  exists w, prepare_workflow steps = Done w /\ pw_ready w <> COk /\ started_steps w = [].
+Proof. exact bad_order_reported. Qed.
 
-Theorem C14_unknown_label_reported_refuted :
-  exists steps st t, steps = [st] /\ In t (step_trees st) /\ cel_expr_wf t = true /\
-    occurs_steps_ref ".a" t /\ prepare_workflow steps = Raised ETypeError.
-Proof. exact unknown_label_reported_refuted. Qed.
+(* references without a usable name (`stepsX.foo`, `steps['.a']`, `steps['[a']`: the key matches
+   STEPS_NAME_PATTERN but its group `name` is None) are reported not ready as well *)
+Theorem C14_nameless_ref_rejected : forall steps w pre st post t S k,
+  prepare_workflow steps = Done w -> steps = pre ++ st :: post ->
+  In t (step_trees st) -> extract t = Done S -> In k S -> steps_name k = Some None ->
+  pw_ready w <> COk.
+Proof. exact nameless_ref_rejected. Qed.
+
+Example C14_nameless_examples :
+  cel_expr_wf tree_stepsX_foo = true /\ cel_expr_wf tree_steps_dot_a = true /\
+  extract tree_stepsX_foo = Done ["stepsX.foo"] /\ steps_name "stepsX.foo" = Some None /\
+  extract tree_steps_dot_a = Done ["steps..a"] /\ steps_name "steps..a" = Some None /\
+  (exists w, prepare_workflow (one_step tree_stepsX_foo) = Done w /\ pw_ready w = CPermFail /\
+             pw_steps w = [SErr "aaa" CPermFail] /\ started_steps w = []) /\
+  (exists w, prepare_workflow (one_step tree_steps_dot_a) = Done w /\ pw_ready w = CPermFail /\
+             pw_steps w = [SErr "aaa" CPermFail] /\ started_steps w = []).
+Proof. exact nameless_examples. Qed.
 
 (* ---------------------------------------------------------------------------
    "Every Function or Workflow a definition names (step Logic including every refSwitch
@@ -188,9 +200,9 @@ Print Assumptions C14_ready_deps_complete_and_earlier.
 Print Assumptions C14_bad_order_rejected.
 Print Assumptions C14_duplicate_label_rejected.
 Print Assumptions C14_not_ready_runs_nothing.
-Print Assumptions C14_prepare_raises_only_type_error.
-Print Assumptions C14_prepare_total_refuted.
-Print Assumptions C14_unknown_label_reported_refuted.
+Print Assumptions C14_prepare_workflow_total.
+Print Assumptions C14_bad_order_reported.
+Print Assumptions C14_nameless_ref_rejected.
 Print Assumptions C14_watched_complete_workflow.
 Print Assumptions C14_watched_complete_rf.
 Print Assumptions C14_watched_complete_ft.
